@@ -12,11 +12,11 @@ import (
 // checksum is fed with, call orders (flush -> fsync -> index flush), and which guard dominates
 // every write path of journal.go / journal_writer.go bootstrap code.
 func init() {
-	register("Journal", "C03/C04/C41 journal record + index layout, recovery scan order, commit call order, read-only guards", jrnGen)
+	register("Journal", "C03/C04/C41 journal record + index layout, recovery scan order, commit call order, read-only guards", journalGen)
 }
 
-// jrnSumAssign evaluates `v += expr` / `v = expr` statements on variable v in fd (constant exprs only).
-func jrnSumAssign(env *constEnv, fd *ast.FuncDecl, v string) (int64, error) {
+// journalSumAssign evaluates `v += expr` / `v = expr` statements on variable v in fd (constant exprs only).
+func journalSumAssign(env *constEnv, fd *ast.FuncDecl, v string) (int64, error) {
 	var sum int64
 	var ferr error
 	ast.Inspect(fd.Body, func(n ast.Node) bool {
@@ -46,8 +46,8 @@ func jrnSumAssign(env *constEnv, fd *ast.FuncDecl, v string) (int64, error) {
 	return sum, ferr
 }
 
-// jrnTagOrder: the identifiers X in `buf[n] = byte(X)` statements, in order.
-func jrnTagOrder(fd *ast.FuncDecl) []string {
+// journalTagOrder: the identifiers X in `buf[n] = byte(X)` statements, in order.
+func journalTagOrder(fd *ast.FuncDecl) []string {
 	var out []string
 	ast.Inspect(fd.Body, func(n ast.Node) bool {
 		as, ok := n.(*ast.AssignStmt)
@@ -67,8 +67,8 @@ func jrnTagOrder(fd *ast.FuncDecl) []string {
 	return out
 }
 
-// jrnSwitchCases: the case labels of the first switch statement on `tag`.
-func jrnSwitchCases(c *ctx, rel string, fd *ast.FuncDecl) []string {
+// journalSwitchCases: the case labels of the first switch statement on `tag`.
+func journalSwitchCases(c *ctx, rel string, fd *ast.FuncDecl) []string {
 	var out []string
 	done := false
 	ast.Inspect(fd.Body, func(n ast.Node) bool {
@@ -91,8 +91,8 @@ func jrnSwitchCases(c *ctx, rel string, fd *ast.FuncDecl) []string {
 	return out
 }
 
-// jrnFlow: in source order, the if-conditions and the calls of interest inside a node.
-func jrnFlow(c *ctx, rel string, n ast.Node, calls map[string]bool) []string {
+// journalFlow: in source order, the if-conditions and the calls of interest inside a node.
+func journalFlow(c *ctx, rel string, n ast.Node, calls map[string]bool) []string {
 	var out []string
 	ast.Inspect(n, func(x ast.Node) bool {
 		switch v := x.(type) {
@@ -114,12 +114,12 @@ func jrnFlow(c *ctx, rel string, n ast.Node, calls map[string]bool) []string {
 	return out
 }
 
-type jrnGuard struct{ call, guard string }
+type journalGuard struct{ call, guard string }
 
-// jrnGuards: for every call whose name is in targets, the conditions that dominate it: enclosing
+// journalGuards: for every call whose name is in targets, the conditions that dominate it: enclosing
 // if/else conditions plus earlier top-level `if <cond> { ...; return }` statements (negated).
-func jrnGuards(c *ctx, rel string, fd *ast.FuncDecl, targets map[string]bool) []jrnGuard {
-	var out []jrnGuard
+func journalGuards(c *ctx, rel string, fd *ast.FuncDecl, targets map[string]bool) []journalGuard {
+	var out []journalGuard
 	var walk func(n ast.Node, conds []string)
 	walkBlock := func(b *ast.BlockStmt, conds []string, top bool) {
 		cs := append([]string{}, conds...)
@@ -168,7 +168,7 @@ func jrnGuards(c *ctx, rel string, fd *ast.FuncDecl, targets map[string]bool) []
 		case *ast.CallExpr:
 			nm := exprName(v.Fun)
 			if targets[nm] {
-				out = append(out, jrnGuard{fd.Name.Name + ":" + nm, strings.Join(conds, " && ")})
+				out = append(out, journalGuard{fd.Name.Name + ":" + nm, strings.Join(conds, " && ")})
 			}
 			for _, a := range v.Args {
 				walk(a, conds)
@@ -193,7 +193,7 @@ func jrnGuards(c *ctx, rel string, fd *ast.FuncDecl, targets map[string]bool) []
 	return out
 }
 
-func jrnGen(c *ctx) error {
+func journalGen(c *ctx) error {
 	const dir = "go/store/nbs/"
 	rec, err := c.file(dir + "journal_record.go")
 	if err != nil {
@@ -236,7 +236,7 @@ func jrnGen(c *ctx) error {
 	if fd == nil {
 		return fmt.Errorf("rootHashRecordSize not found")
 	}
-	sz, err := jrnSumAssign(env, fd, "recordSz")
+	sz, err := journalSumAssign(env, fd, "recordSz")
 	if err != nil {
 		return err
 	}
@@ -245,12 +245,12 @@ func jrnGen(c *ctx) error {
 	if fd == nil {
 		return fmt.Errorf("chunkRecordSize not found")
 	}
-	po, err := jrnSumAssign(env, fd, "payloadOff")
+	po, err := journalSumAssign(env, fd, "payloadOff")
 	if err != nil {
 		return err
 	}
 	c.defInt("chunkPayloadOff", po)
-	extra, err := jrnSumAssign(env, fd, "recordSz") // constant addends of recordSz besides payloadOff and len(payload)
+	extra, err := journalSumAssign(env, fd, "recordSz") // constant addends of recordSz besides payloadOff and len(payload)
 	if err != nil {
 		return err
 	}
@@ -261,37 +261,37 @@ func jrnGen(c *ctx) error {
 		if fd == nil {
 			return fmt.Errorf("%s not found", w)
 		}
-		c.defStringList(w+"Order", jrnTagOrder(fd))
+		c.defStringList(w+"Order", journalTagOrder(fd))
 		c.defStringList(w+"Calls", callNames(fd.Body))
 	}
 	fd = findFunc(rec, "", "readJournalRecord")
 	if fd == nil {
 		return fmt.Errorf("readJournalRecord not found")
 	}
-	c.defStringList("readJournalRecordCases", jrnSwitchCases(c, dir+"journal_record.go", fd))
+	c.defStringList("readJournalRecordCases", journalSwitchCases(c, dir+"journal_record.go", fd))
 	fd = findFunc(rec, "", "validateJournalRecord")
 	if fd == nil {
 		return fmt.Errorf("validateJournalRecord not found")
 	}
-	c.defStringList("validateFlow", jrnFlow(c, dir+"journal_record.go", fd, map[string]bool{"crc": true, "readUint32": true}))
+	c.defStringList("validateFlow", journalFlow(c, dir+"journal_record.go", fd, map[string]bool{"crc": true, "readUint32": true}))
 	// recovery scan: order of early exits
 	fd = findFunc(rec, "", "processJournalRecordsReader")
 	if fd == nil {
 		return fmt.Errorf("processJournalRecordsReader not found")
 	}
-	c.defStringList("scanFlow", jrnFlow(c, dir+"journal_record.go", fd, map[string]bool{
+	c.defStringList("scanFlow", journalFlow(c, dir+"journal_record.go", fd, map[string]bool{
 		"rdr.Peek": true, "readUint32": true, "validateJournalRecord": true, "readJournalRecord": true, "cb": true, "io.ReadFull": true, "bufio.NewReaderSize": true}))
 	fd = findFunc(rec, "", "processJournalRecords")
 	if fd == nil {
 		return fmt.Errorf("processJournalRecords not found")
 	}
-	c.defStringList("recoverFlow", jrnFlow(c, dir+"journal_record.go", fd, map[string]bool{
+	c.defStringList("recoverFlow", journalFlow(c, dir+"journal_record.go", fd, map[string]bool{
 		"r.Seek": true, "processJournalRecordsReader": true, "possibleDataLossCheck": true, "NewJournalDataLossError": true, "f.Truncate": true, "f.Sync": true}))
 	fd = findFunc(rec, "", "possibleDataLossCheck")
 	if fd == nil {
 		return fmt.Errorf("possibleDataLossCheck not found")
 	}
-	c.defStringList("dataLossFlow", jrnFlow(c, dir+"journal_record.go", fd, map[string]bool{
+	c.defStringList("dataLossFlow", journalFlow(c, dir+"journal_record.go", fd, map[string]bool{
 		"io.ReadFull": true, "validateJournalRecord": true, "readJournalRecord": true, "readUint32": true}))
 	var forConds, assigns []string
 	ast.Inspect(fd.Body, func(n ast.Node) bool {
@@ -326,7 +326,7 @@ func jrnGen(c *ctx) error {
 		if fd == nil {
 			return fmt.Errorf("journalWriter.%s not found", fn)
 		}
-		c.defStringList("wr_"+fn+"_flow", jrnFlow(c, dir+"journal_writer.go", fd, wcalls))
+		c.defStringList("wr_"+fn+"_flow", journalFlow(c, dir+"journal_writer.go", fd, wcalls))
 	}
 	// what the index batch checksum is fed with (every crc32.Update call of the journal files)
 	var crcArgs []string
@@ -369,12 +369,12 @@ func jrnGen(c *ctx) error {
 	if fd == nil {
 		return fmt.Errorf("processIndexRecords not found")
 	}
-	c.defStringList("processIndexCases", jrnSwitchCases(c, dir+"journal_index_record.go", fd))
+	c.defStringList("processIndexCases", journalSwitchCases(c, dir+"journal_index_record.go", fd))
 	fd = findFunc(wrf, "journalWriter", "readJournalIndex")
 	if fd == nil {
 		return fmt.Errorf("readJournalIndex not found")
 	}
-	c.defStringList("readJournalIndexFlow", jrnFlow(c, dir+"journal_writer.go", fd, map[string]bool{"peekRootHashAt": true, "processIndexRecords": true, "wr.truncateIndex": true, "wr.ranges.putCached": true, "wr.ranges.flatten": true}))
+	c.defStringList("readJournalIndexFlow", journalFlow(c, dir+"journal_writer.go", fd, map[string]bool{"peekRootHashAt": true, "processIndexRecords": true, "wr.truncateIndex": true, "wr.ranges.putCached": true, "wr.ranges.flatten": true}))
 
 	// read-only guards (C04 readonly_no_writes, C41 readonly_never_writes)
 	var gs [][2]string
@@ -385,7 +385,7 @@ func jrnGen(c *ctx) error {
 		if fd == nil {
 			return fmt.Errorf("journalWriter.%s not found", fn)
 		}
-		for _, g := range jrnGuards(c, dir+"journal_writer.go", fd, wtargets) {
+		for _, g := range journalGuards(c, dir+"journal_writer.go", fd, wtargets) {
 			gs = append(gs, [2]string{g.call, g.guard})
 		}
 	}
@@ -412,7 +412,7 @@ func jrnGen(c *ctx) error {
 		if !ok || fd.Body == nil {
 			continue
 		}
-		for _, g := range jrnGuards(c, dir+"journal.go", fd, jtargets) {
+		for _, g := range journalGuards(c, dir+"journal.go", fd, jtargets) {
 			gs = append(gs, [2]string{g.call, g.guard})
 		}
 	}
@@ -441,7 +441,7 @@ func jrnGen(c *ctx) error {
 	if fd == nil {
 		return fmt.Errorf("newJournalLock not found")
 	}
-	c.defStringList("newJournalLockFlow", jrnFlow(c, dir+"journal.go", fd, map[string]bool{"fslock.New": true, "lock.TryLock": true, "lock.LockWithTimeout": true, "lock.Close": true}))
+	c.defStringList("newJournalLockFlow", journalFlow(c, dir+"journal.go", fd, map[string]bool{"fslock.New": true, "lock.TryLock": true, "lock.LockWithTimeout": true, "lock.Close": true}))
 	var rets []string
 	ast.Inspect(fd.Body, func(n ast.Node) bool {
 		if r, ok := n.(*ast.ReturnStmt); ok {
